@@ -8,9 +8,17 @@ import KodaModel.Render
 import KodaModel.Schema
 import KodaModel.SchemaEval
 import KodaModel.Signature
+import KodaModel.Rename
 
 open Lean (Json)
 open Koda Koda.Wire
+
+def getNatPairs (j : Json) : D (List (Nat × Nat)) := do
+  (← j.getArr?).toList.mapM (fun e => do
+    let a ← e.getArr?
+    match a.toList with
+    | [x, y] => pure (← x.getNat?, ← y.getNat?)
+    | _ => throw "bad pair")
 
 def handleRun (j : Json) : D Json := do
   let mode ← match ← str j "mode" with
@@ -36,6 +44,20 @@ def handleRun (j : Json) : D Json := do
   let fuel ← match fldOpt j "fuel" with
     | some f => f.getNat?
     | none => pure 10000
+  -- optional: run the tree with object identities renamed (`V.rn`, the subject of C19_rename)
+  let (env, v) ← match fldOpt j "rename" with
+    | none => pure (env, v)
+    | some rj => do
+      let pT ← getNatPairs (← fld rj "p")
+      let vT ← getNatPairs (← fld rj "v")
+      let look (t : List (Nat × Nat)) (d : Option Nat) (i : Nat) : Nat :=
+        match t.find? (fun e => e.1 == i) with
+        | some e => e.2
+        | none => d.getD i
+      let pd ← match fldOpt rj "pd" with | some d => (some <$> d.getNat?) | none => pure none
+      let vd ← match fldOpt rj "vd" with | some d => (some <$> d.getNat?) | none => pure none
+      let r : Rn := ⟨look pT pd, look vT vd⟩
+      pure ((fun i => (env i).rn r), v.rn r)
   match run o env mode fuel v x with
   | none => pure (Json.mkObj [("error", "fuel")])
   | some (out, t) => pure (Json.mkObj [("out", outJ out), ("trace", Json.arr (t.map evJ).toArray)])
